@@ -476,6 +476,74 @@ func bandIsoEvent(c *ctx, name band.Name) (M, error) {
 	return M{"ev": "bandiso", "bname": b.Name(), "before": before, "after": after, "fresh": fp, "mutated": !reflect.DeepEqual(ap, before)}, nil
 }
 
+// twoDecodes: two DIFFERENT variables are decoded one after the other; what the first holds must not change when the
+// second is decoded or modified (values returned by separate decode calls share nothing).  The frames carry a registered
+// proprietary MAC command besides standard ones, so the registry's payload factory is covered too.
+func (c *ctx) twoDecodeEvents() {
+	for _, up := range []bool{true, false} {
+		lorawan.RegisterProprietaryMACCommand(up, lorawan.CID(0xe0), 2)
+	}
+	for i := 0; i < 12; i++ {
+		up := i%2 == 0
+		mk := func() []byte {
+			mt := lorawan.UnconfirmedDataDown
+			if up {
+				mt = lorawan.UnconfirmedDataUp
+			}
+			fp := uint8(1 + c.rnd.Intn(200))
+			phy := lorawan.PHYPayload{MHDR: lorawan.MHDR{MType: mt, Major: lorawan.LoRaWANR1}, MACPayload: &lorawan.MACPayload{
+				FHDR: lorawan.FHDR{DevAddr: lorawan.DevAddr{1, 2, 3, byte(c.rnd.Intn(256))}, FCnt: uint32(c.rnd.Intn(65536)), FOpts: []lorawan.Payload{
+					&lorawan.MACCommand{CID: lorawan.CID(0xe0), Payload: &lorawan.ProprietaryMACCommandPayload{Bytes: c.bytesN(2)}},
+					&lorawan.MACCommand{CID: lorawan.CID(0xe0), Payload: &lorawan.ProprietaryMACCommandPayload{Bytes: c.bytesN(2)}}}},
+				FPort: &fp, FRMPayload: []lorawan.Payload{&lorawan.DataPayload{Bytes: c.bytesN(1 + c.rnd.Intn(12))}}}}
+			b, _ := phy.MarshalBinary()
+			return b
+		}
+		a, b := mk(), mk()
+		ev := M{"ev": "twodecode", "a": bs(a), "b": bs(b), "up": up}
+		var v1, v2 lorawan.PHYPayload
+		r1, _ := observeFast(func() error {
+			if err := v1.UnmarshalBinary(append([]byte{}, a...)); err != nil {
+				return err
+			}
+			return v1.DecodeFOptsToMACCommands()
+		})
+		ev["err1"] = r1
+		ev["first"] = phyToVal(&v1)
+		r2, _ := observeFast(func() error {
+			if err := v2.UnmarshalBinary(append([]byte{}, b...)); err != nil {
+				return err
+			}
+			return v2.DecodeFOptsToMACCommands()
+		})
+		ev["err2"] = r2
+		ev["first_after_second"] = phyToVal(&v1)
+		// overwrite everything reachable from the second value
+		observeFast(func() error {
+			m2 := v2.MACPayload.(*lorawan.MACPayload)
+			for _, o := range m2.FHDR.FOpts {
+				if mc, ok := o.(*lorawan.MACCommand); ok {
+					if pp, ok := mc.Payload.(*lorawan.ProprietaryMACCommandPayload); ok {
+						for k := range pp.Bytes {
+							pp.Bytes[k] ^= 0xff
+						}
+					}
+				}
+			}
+			for _, o := range m2.FRMPayload {
+				if dp, ok := o.(*lorawan.DataPayload); ok {
+					for k := range dp.Bytes {
+						dp.Bytes[k] ^= 0xff
+					}
+				}
+			}
+			return nil
+		})
+		ev["first_after_overwrite"] = phyToVal(&v1)
+		c.emit(ev)
+	}
+}
+
 // bandIso2: two objects of one band are mutated one after the other; the first must keep its state while the
 // second changes, and the second must end exactly like an object that received the same operations alone.
 func (c *ctx) genBandOps(chans []band.VerifChannel, extra bool) []M {
@@ -543,6 +611,7 @@ func drvOwn(c *ctx) error {
 			c.reuseEvents()
 			c.subsliceEvents()
 		}
+		c.twoDecodeEvents() // last: it registers a proprietary MAC command in this process
 	case "bands":
 		for i := 0; i < c.n; i++ {
 			ev, err := bandIsoEvent(c, bandNames[i%14])
